@@ -46,6 +46,10 @@ impl Compiler {
     }
 
     fn parse_precedence(&mut self, precedence: Precedence) -> Result<Expression> {
+        if self.current >= self.tokens.len() {
+            return Err(Error::Eof); // an operator without its operand, e.g. `1 +` or `-`
+        }
+
         self.advance();
         let mut expression = self.do_prefix()?;
 
